@@ -68,6 +68,12 @@ func (r *round3) VerifyMessage(msg round.Message) error {
 		return round.ErrInvalidContent
 	}
 
+	// D is encrypted under our key, F under the sender's
+	if !r.Paillier[to].ValidateCiphertexts(body.DeltaD, body.ChiD) ||
+		!r.Paillier[from].ValidateCiphertexts(body.DeltaF, body.ChiF) {
+		return round.ErrNilFields
+	}
+
 	if !body.DeltaProof.Verify(r.HashForID(from), zkaffg.Public{
 		Kv:       r.K[to],
 		Dv:       body.DeltaD,
